@@ -111,11 +111,12 @@ theorem c09_negative_window_silent (d : Dir α) (s : Nat) (st : Stream α)
       have : (f.fc : Int) > d.connWin ∨ (f.fc : Int) > st.win := Or.inr (by omega)
       simp [this]
 
-/-- **stream ledger**: after any schedule, processing one more frame (other than a SETTINGS frame
-    that repeats SETTINGS_INITIAL_WINDOW_SIZE) leaves, for every stream on which it released a
-    frame, `sent s ≤ initWin_now + Σ increments s` — in particular after decreases of the initial
-    window with data queued. -/
-theorem c09_stream_ledger (evs : List (Ev α)) (e : Ev α) (hs : simpleOp e.op) :
+/-- **stream ledger**: after any schedule, processing one more frame — ANY frame, a SETTINGS frame
+    that repeats SETTINGS_INITIAL_WINDOW_SIZE any number of times included — leaves, for every
+    stream on which it released a frame, `sent s ≤ initWin_now + Σ increments s` — in particular
+    after decreases of the initial window with data queued.  (Before the repair of F51 the clause
+    needed the hypothesis that a SETTINGS frame names the identifier at most once.) -/
+theorem c09_stream_ledger (evs : List (Ev α)) (e : Ev α) :
     let r' := (after (evs ++ [e])).1
     let g' := (after (evs ++ [e])).2
     let out := ((after evs).1.step e.side e.ord e.op).2
@@ -129,7 +130,7 @@ theorem c09_stream_ledger (evs : List (Ev α)) (e : Ev α) (hs : simpleOp e.op) 
   obtain ⟨side, ord, op⟩ := e
   cases side with
   | client =>
-    have hr := Released.step hb0.1 hb0.2 ord op hs
+    have hr := Released.step hb0.1 hb0.2 ord op
     constructor
     · intro q hq
       obtain ⟨st, hst, hw⟩ := hr.1 q hq
@@ -142,7 +143,7 @@ theorem c09_stream_ledger (evs : List (Ev α)) (e : Ev α) (hs : simpleOp e.op) 
       simp only [] at this ⊢
       omega
   | server =>
-    have hr := Released.step hb0.2 hb0.1 ord op hs
+    have hr := Released.step hb0.2 hb0.1 ord op
     constructor
     · intro q hq
       obtain ⟨st, hst, hw⟩ := hr.2 q hq
@@ -267,57 +268,71 @@ theorem c09_credit_only_for_data (d o : Dir α) (ord : Nat → List Nat) (op : O
 
 /-! ### SETTINGS frames that repeat an identifier (RFC 7540 §6.5.3) -/
 
-/-- **the last value wins**: the `ForeachSetting` loop walks the frame in order, so after it — for
-    every list, with any identifiers repeated any number of times, whatever the scans in between
-    release — the initial window size, the frame size limit and the table size of the direction are
-    the values of the LAST occurrence of their identifiers (what the endpoint that sent the frame,
-    and the one that gets it forwarded verbatim, have in force); applying the list or its
-    last-occurrence dedup (`lastOcc`, no identifier twice) makes no difference to them. -/
+/-- the relay's way of applying a SETTINGS frame to the direction that sends to the frame's author:
+    `relay.applySettings` (the frame is read completely, then the values in force are applied) -/
+def settingsAsCoded (α : Type) : Dir α → (Nat → List Nat) → List (Nat × Nat) → Dir α × List (QFrame α) :=
+  fun o ord kvs => applySettings o ord kvs
+
+/-- the loop the relay ran before the repair of F51: every value of the frame applied as
+    `ForeachSetting` reached it, the queues scanned after every SETTINGS_INITIAL_WINDOW_SIZE value -/
+def settingsEachValue (α : Type) : Dir α → (Nat → List Nat) → List (Nat × Nat) → Dir α × List (QFrame α) :=
+  fun o ord kvs => applyEach o ord 0 kvs
+
+/-- **the last value wins**: after `relay.applySettings` — for every list, with any identifiers
+    repeated any number of times, whatever the scan releases — the initial window size, the frame
+    size limit and the table size of the direction are the values of the LAST occurrence of their
+    identifiers (what the endpoint that sent the frame, and the one that gets it forwarded verbatim,
+    have in force).  Walking the whole frame value by value (the loop before the repair), or its
+    last-occurrence dedup (`lastOcc`, no identifier twice), puts the same values in force; the code
+    acts on SETTINGS_INITIAL_WINDOW_SIZE at most once per frame. -/
 theorem c09_settings_last_wins (o : Dir α) (ord ord' : Nat → List Nat) (k k' : Nat) (kvs : List (Nat × Nat)) :
-    (applySettings o ord k kvs).1.initWin = lastOfInt settingInitialWindowSize o.initWin kvs ∧
-    (applySettings o ord k kvs).1.maxFrame = lastOf settingMaxFrameSize o.maxFrame kvs ∧
-    (applySettings o ord k kvs).1.tableSize = lastOf settingHeaderTableSize o.tableSize kvs ∧
-    (applySettings o ord' k' (lastOcc kvs)).1.initWin = (applySettings o ord k kvs).1.initWin ∧
-    (applySettings o ord' k' (lastOcc kvs)).1.maxFrame = (applySettings o ord k kvs).1.maxFrame ∧
-    (applySettings o ord' k' (lastOcc kvs)).1.tableSize = (applySettings o ord k kvs).1.tableSize ∧
-    ((lastOcc kvs).map (·.1)).Nodup := by
-  have h := applySettings_cfg o ord k kvs
-  have h' := applySettings_cfg o ord' k' (lastOcc kvs)
-  refine ⟨h.1, h.2.1, h.2.2, ?_, ?_, ?_, lastOcc_nodup kvs⟩
-  · rw [h'.1, h.1, lastOfInt_lastOcc]
-  · rw [h'.2.1, h.2.1, lastOf_lastOcc]
-  · rw [h'.2.2, h.2.2, lastOf_lastOcc]
+    (applySettings o ord kvs).1.initWin = lastOfInt settingInitialWindowSize o.initWin kvs ∧
+    (applySettings o ord kvs).1.maxFrame = lastOf settingMaxFrameSize o.maxFrame kvs ∧
+    (applySettings o ord kvs).1.tableSize = lastOf settingHeaderTableSize o.tableSize kvs ∧
+    SameCfg (applySettings o ord kvs).1 (applyEach o ord' k kvs).1 ∧
+    SameCfg (applySettings o ord kvs).1 (applyEach o ord' k' (lastOcc kvs)).1 ∧
+    ((lastOcc kvs).map (·.1)).Nodup ∧ initCount (inForce kvs) ≤ 1 := by
+  have h := applySettings_cfg o ord kvs
+  have h1 := applyEach_cfg o ord' k kvs
+  have h2 := applyEach_cfg o ord' k' (lastOcc kvs)
+  refine ⟨h.1, h.2.1, h.2.2, ⟨?_, ?_, ?_⟩, ⟨?_, ?_, ?_⟩, lastOcc_nodup kvs, initCount_inForce kvs⟩
+  · rw [h1.1, h.1]
+  · rw [h1.2.1, h.2.1]
+  · rw [h1.2.2, h.2.2]
+  · rw [h2.1, h.1, lastOfInt_lastOcc]
+  · rw [h2.2.1, h.2.1, lastOf_lastOcc]
+  · rw [h2.2.2, h.2.2, lastOf_lastOcc]
 
 /-- the same at the level of `processFrame`: a SETTINGS frame read from one endpoint leaves the
     opposite direction (the one that sends TO that endpoint) with the last values, and is forwarded
-    verbatim — so relay and both endpoints agree on what is in force -/
+    verbatim — every occurrence, in order — so relay and both endpoints agree on what is in force -/
 theorem c09_settings_frame_in_force (d o : Dir α) (ord : Nat → List Nat) (kvs : List (Nat × Nat)) :
     (process d o ord (.settings kvs)).2.1.initWin = lastOfInt settingInitialWindowSize o.initWin kvs ∧
     (process d o ord (.settings kvs)).2.1.maxFrame = lastOf settingMaxFrameSize o.maxFrame kvs ∧
     (process d o ord (.settings kvs)).2.1.tableSize = lastOf settingHeaderTableSize o.tableSize kvs ∧
     (process d o ord (.settings kvs)).2.2.fwdDirect = [.settings kvs] := by
-  have h := applySettings_cfg o ord 0 kvs
+  have h := applySettings_cfg o ord kvs
   exact ⟨h.1, h.2.1, h.2.2, rfl⟩
 
 /-- the ledger identity after such a frame is the one with the last value: on every stream with a
     buffer, `win = last value + Σ increments − sent` (bookkeeping holds across the frame) -/
 theorem c09_ledger_after_repeated_settings {o : Dir α} {L : Ledger} {H : Hist α} (h : Inv o L H) (ord : Nat → List Nat)
     (kvs : List (Nat × Nat)) (s : Nat) (st : Stream α)
-    (hs : (applySettings o ord 0 kvs).1.streams.get s = some st) :
+    (hs : (applySettings o ord kvs).1.streams.get s = some st) :
     st.win = lastOfInt settingInitialWindowSize o.initWin kvs +
-      (L.addEmitted (applySettings o ord 0 kvs).2).inc s - (L.addEmitted (applySettings o ord 0 kvs).2).sent s := by
-  have hb := h.applySettings ord 0 kvs
+      (L.addEmitted (applySettings o ord kvs).2).inc s - (L.addEmitted (applySettings o ord kvs).2).sent s := by
+  have hb := h.applySettings ord kvs
   have := hb.book.win s st hs
-  rw [(applySettings_cfg o ord 0 kvs).1] at this
+  rw [(applySettings_cfg o ord kvs).1] at this
   exact this
 
-/-- **stream ledger across a SETTINGS frame, full statement** (the case `c09_stream_ledger` leaves
-    out: frames that repeat SETTINGS_INITIAL_WINDOW_SIZE): every frame released while the list is
-    processed is within `last value + Σ increments` of its stream — the LAST value is the one in
-    force once the frame is processed (RFC 7540 §6.5.3), the only one the endpoint has granted.
-    `apply` is the way the relay applies the list to the direction that sends to the frame's author:
-    `fun o ord kvs => applySettings o ord 0 kvs` is the code as it is, `applySettingsLastOnly` the
-    fix pattern.  FALSE of the code as it is (F51, `c09_repeated_settings_full_statement_fails`). -/
+/-- **stream ledger across a SETTINGS frame, the statement** (spelled out for one frame; it is what
+    `c09_stream_ledger` says of a SETTINGS step): every frame released while the list is processed
+    is within `last value + Σ increments` of its stream — the LAST value is the one in force once
+    the frame is processed (RFC 7540 §6.5.3), the only one the endpoint has granted.  `apply` is the
+    way the list is applied to the direction that sends to the frame's author: `settingsAsCoded`
+    (the code), `settingsEachValue` (the loop before the repair of F51: FALSE of it,
+    `c09_settings_each_value_applied_witness`), `applySettingsLastOnly` (the plain dedup). -/
 def c09_stream_ledger_repeated_settings_full (α : Type)
     (apply : Dir α → (Nat → List Nat) → List (Nat × Nat) → Dir α × List (QFrame α)) : Prop :=
   ∀ (o : Dir α) (L : Ledger) (H : Hist α), Inv o L H → ∀ (ord : Nat → List Nat) (kvs : List (Nat × Nat)),
@@ -325,109 +340,139 @@ def c09_stream_ledger_repeated_settings_full (α : Type)
       (L.addEmitted (apply o ord kvs).2).sent q.sid ≤
         lastOfInt settingInitialWindowSize o.initWin kvs + (L.addEmitted (apply o ord kvs).2).inc q.sid
 
-/-- the `ForeachSetting` loop of the unchanged tree -/
-def settingsAsCoded (α : Type) : Dir α → (Nat → List Nat) → List (Nat × Nat) → Dir α × List (QFrame α) :=
-  fun o ord kvs => applySettings o ord 0 kvs
-
-/-- **PARTIAL form of `c09_stream_ledger_repeated_settings_full`** for the code as it is (F51 is
-    the excluded class): the relay scans its queues after every value, so frames are released under
-    intermediate values; WHEN NO VALUE OF THE FRAME EXCEEDS THE LAST ONE (`hmax`), every frame
-    released while the list is processed is within `last value + Σ increments` of its stream.
-    The hypothesis is needed: `c09_repeated_settings_larger_intermediate_witness`. -/
-theorem c09_stream_ledger_repeated_settings {o : Dir α} {L : Ledger} {H : Hist α} (h : Inv o L H)
-    (ord : Nat → List Nat) (kvs : List (Nat × Nat))
-    (hmax : initAllLe (lastOfInt settingInitialWindowSize o.initWin kvs) kvs) :
-    ∀ q ∈ (applySettings o ord 0 kvs).2,
-      (L.addEmitted (applySettings o ord 0 kvs).2).sent q.sid ≤
-        lastOfInt settingInitialWindowSize o.initWin kvs + (L.addEmitted (applySettings o ord 0 kvs).2).inc q.sid := by
-  intro q hq
-  obtain ⟨st, hs, hw⟩ := Released.applySettings_lastMax h.book ord 0 kvs hmax q hq
+/-- **stream ledger across a SETTINGS frame, at full strength for the code**: whatever identifiers
+    the frame repeats, with whatever values in whatever order, in every reachable state and for
+    every iteration order, every frame `relay.applySettings` releases is within `last value +
+    Σ increments` of its stream: the frame is read completely before the queues are touched, the
+    one scan runs under the value in force.  (Until the repair of F51 this held only under the
+    hypothesis that no value of the frame exceeds the last one.) -/
+theorem c09_stream_ledger_repeated_settings :
+    c09_stream_ledger_repeated_settings_full α (settingsAsCoded α) := by
+  intro o L H h ord kvs q hq
+  obtain ⟨st, hs, hw⟩ := Released.applySettings h.book ord kvs q hq
   have := c09_ledger_after_repeated_settings h ord kvs q.sid st hs
+  unfold settingsAsCoded
   omega
 
-/-- F51 witness (numbers scaled down by 100; the full-size schedule is
-    `corpus/C09/f51-settings-larger-intermediate-initial-window.json`, replayed on the code): the
-    receiver holds 50 octets back with INITIAL_WINDOW_SIZE 0 and then sends
-    `{INITIAL_WINDOW_SIZE=50, MAX_CONCURRENT_STREAMS=100, INITIAL_WINDOW_SIZE=0}` in ONE frame; the
-    scan after the first value releases the 50 octets although the value in force is 0
-    (`updateInitialWindowSize` calls `sendQueuedFramesUnderWindowSize` per value): the stream window
-    ends at −50. -/
-theorem c09_repeated_settings_larger_intermediate_witness :
+/-- **why the frame has to be read completely first** (the loop before the repair of F51 as a
+    counter-model; numbers scaled down by 100, the full-size schedule is
+    `corpus/C09/f51-settings-larger-intermediate-initial-window.json`, which the code now passes):
+    the receiver holds 50 octets back with INITIAL_WINDOW_SIZE 0 and then sends
+    `{INITIAL_WINDOW_SIZE=50, MAX_CONCURRENT_STREAMS=100, INITIAL_WINDOW_SIZE=0}` in ONE frame.
+    Applied value by value, the scan after the first value releases the 50 octets although the
+    value in force is 0 and the stream window ends at −50: the statement is false of that loop (the
+    state is reachable: it satisfies `Inv`).  The code releases nothing, the window stays 0. -/
+theorem c09_settings_each_value_applied_witness :
+    ¬ c09_stream_ledger_repeated_settings_full Unit (settingsEachValue Unit) ∧
+    (let evs : List (Ev Unit) :=
+      [⟨.server, fun _ => [], .settings [(4, 0)]⟩,
+       ⟨.client, fun _ => [], .data 1 (List.replicate 50 ()) none true⟩]
+     let o := (after evs).1.cs
+     let kvs : List (Nat × Nat) := [(4, 50), (3, 100), (4, 0)]
+     let old := settingsEachValue Unit o (fun _ => []) kvs
+     let new := settingsAsCoded Unit o (fun _ => []) kvs
+     -- a non-final value exceeds the last one (`Released.applyEach_lastMax` covers the other lists)
+     ¬ initAllLe (lastOfInt settingInitialWindowSize o.initWin kvs) kvs ∧
+     old.1.initWin = 0 ∧ (old.2.flatMap QFrame.send).map Frame.payloadLen = [50] ∧
+     (old.1.streams.get 1).map (·.win) = some (-50) ∧
+     new.1.initWin = 0 ∧ new.2 = [] ∧ (new.1.streams.get 1).map (·.win) = some 0) := by
+  constructor
+  · intro h
     let evs : List (Ev Unit) :=
-      [⟨.server, fun _ => [], .settings [(4, 0)]⟩,
-       ⟨.client, fun _ => [], .data 1 (List.replicate 50 ()) none true⟩]
-    let r := (after evs).1
-    let x := r.step .server (fun _ => []) (.settings [(4, 50), (3, 100), (4, 0)])
-    ¬ initAllLe (lastOfInt settingInitialWindowSize r.cs.initWin [(4, 50), (3, 100), (4, 0)]) [(4, 50), (3, 100), (4, 0)] ∧
-    x.1.cs.initWin = 0 ∧
-    (x.2.back.flatMap QFrame.send).map Frame.payloadLen = [50] ∧
-    (x.1.cs.streams.get 1).map (·.win) = some (-50) := by
-  decide
+        [⟨.server, fun _ => [], .settings [(4, 0)]⟩,
+         ⟨.client, fun _ => [], .data 1 (List.replicate 50 ()) none true⟩]
+    have hinv := ((RInv.init (α := Unit)).run evs).cs
+    have := h _ _ _ hinv (fun _ => []) [(4, 50), (3, 100), (4, 0)] (.data 1 true (List.replicate 50 ())) (by decide)
+    revert this
+    decide
+  · decide
 
-/-- the full statement is false of the code as it is (the state of the witness is reachable:
-    it satisfies `Inv`) -/
-theorem c09_repeated_settings_full_statement_fails :
-    ¬ c09_stream_ledger_repeated_settings_full Unit (settingsAsCoded Unit) := by
-  intro h
-  let evs : List (Ev Unit) :=
-      [⟨.server, fun _ => [], .settings [(4, 0)]⟩,
-       ⟨.client, fun _ => [], .data 1 (List.replicate 50 ()) none true⟩]
-  have hinv := ((RInv.init (α := Unit)).run evs).cs
-  have := h _ _ _ hinv (fun _ => []) [(4, 50), (3, 100), (4, 0)] (.data 1 true (List.replicate 50 ())) (by decide)
-  revert this
-  decide
-
-/-- **the fix pattern satisfies the full statement** (what a repair of F51 has to achieve): a relay
-    that collects the frame's final values — every identifier once, with its last value — before it
-    touches the queues (`applySettingsLastOnly`: one scan per frame, under the value in force)
-    releases, for EVERY frame, state and iteration order, only frames within `last value +
-    Σ increments` of their streams. -/
+/-- **the plain dedup satisfies the statement as well**: a relay that collects the frame's final
+    values — EVERY identifier once, with its last value — before it touches the queues
+    (`applySettingsLastOnly`) releases, for every frame, state and iteration order, only frames
+    within `last value + Σ increments` of their streams.  (The code dedups the two identifiers that
+    only have a current value and hands every SETTINGS_HEADER_TABLE_SIZE to HPACK.) -/
 theorem c09_repeated_settings_last_only_full : c09_stream_ledger_repeated_settings_full α applySettingsLastOnly := by
   intro o L H h ord kvs q hq
   obtain ⟨st, hs, hw⟩ := Released.applySettingsLastOnly h.book ord kvs q hq
-  have hb := (h.applySettings ord 0 (lastOcc kvs)).book.win q.sid st hs
-  rw [(applySettings_cfg o ord 0 (lastOcc kvs)).1, lastOfInt_lastOcc] at hb
+  have hb := (h.applyEach ord 0 (lastOcc kvs)).book.win q.sid st hs
+  rw [(applyEach_cfg o ord 0 (lastOcc kvs)).1, lastOfInt_lastOcc] at hb
   unfold applySettingsLastOnly
   omega
 
-/-- … and changes nothing else: the same values are in force afterwards as with the code as it is
-    (the last ones), the invariants of the direction (bookkeeping, no stranding, FIFO) are kept, and
-    on a frame that names no identifier twice — every frame the other clauses speak about — it IS
-    the `ForeachSetting` loop. -/
+/-- … and changes nothing else: the same values are in force afterwards as with the value-by-value
+    loop (the last ones), the invariants of the direction (bookkeeping, no stranding, FIFO) are
+    kept, and on a frame that names no identifier twice it IS that loop. -/
 theorem c09_repeated_settings_last_only_conservative {o : Dir α} {L : Ledger} {H : Hist α} (h : Inv o L H)
     (ord : Nat → List Nat) (kvs : List (Nat × Nat)) :
-    (applySettingsLastOnly o ord kvs).1.initWin = (applySettings o ord 0 kvs).1.initWin ∧
-    (applySettingsLastOnly o ord kvs).1.maxFrame = (applySettings o ord 0 kvs).1.maxFrame ∧
-    (applySettingsLastOnly o ord kvs).1.tableSize = (applySettings o ord 0 kvs).1.tableSize ∧
+    (applySettingsLastOnly o ord kvs).1.initWin = (applyEach o ord 0 kvs).1.initWin ∧
+    (applySettingsLastOnly o ord kvs).1.maxFrame = (applyEach o ord 0 kvs).1.maxFrame ∧
+    (applySettingsLastOnly o ord kvs).1.tableSize = (applyEach o ord 0 kvs).1.tableSize ∧
     Inv (applySettingsLastOnly o ord kvs).1 (L.addEmitted (applySettingsLastOnly o ord kvs).2)
       (H.addOut (applySettingsLastOnly o ord kvs).2) ∧
-    ((kvs.map (·.1)).Nodup → applySettingsLastOnly o ord kvs = applySettings o ord 0 kvs) := by
-  have hl := c09_settings_last_wins o ord ord 0 0 kvs
-  refine ⟨hl.2.2.2.1, hl.2.2.2.2.1, hl.2.2.2.2.2.1, h.applySettings ord 0 (lastOcc kvs), ?_⟩
-  intro hn
-  unfold applySettingsLastOnly
-  rw [lastOcc_of_nodup kvs hn]
+    ((kvs.map (·.1)).Nodup → applySettingsLastOnly o ord kvs = applyEach o ord 0 kvs) := by
+  have h1 := applyEach_cfg o ord 0 kvs
+  have h2 := applyEach_cfg o ord 0 (lastOcc kvs)
+  refine ⟨?_, ?_, ?_, h.applyEach ord 0 (lastOcc kvs), ?_⟩
+  · show (applyEach o ord 0 (lastOcc kvs)).1.initWin = _
+    rw [h2.1, h1.1, lastOfInt_lastOcc]
+  · show (applyEach o ord 0 (lastOcc kvs)).1.maxFrame = _
+    rw [h2.2.1, h1.2.1, lastOf_lastOcc]
+  · show (applyEach o ord 0 (lastOcc kvs)).1.tableSize = _
+    rw [h2.2.2, h1.2.2, lastOf_lastOcc]
+  · intro hn
+    unfold applySettingsLastOnly
+    rw [lastOcc_of_nodup kvs hn]
 
-/-- the F51 witness under the fix pattern: nothing is released, the 50 octets wait (window 0) and a
-    WINDOW_UPDATE of 50 releases them -/
+/-- **the repair changes nothing else**: `relay.applySettings` puts the same values in force as the
+    loop it replaced, keeps the invariants of the direction (bookkeeping, no stranding, FIFO),
+    forwards the frame verbatim as before, and on a frame that names no identifier twice — every
+    frame the other clauses speak about — it IS that loop, step for step. -/
+theorem c09_settings_repair_conservative {o : Dir α} {L : Ledger} {H : Hist α} (h : Inv o L H)
+    (d : Dir α) (ord : Nat → List Nat) (kvs : List (Nat × Nat)) :
+    SameCfg (settingsEachValue α o ord kvs).1 (settingsAsCoded α o ord kvs).1 ∧
+    Inv (settingsAsCoded α o ord kvs).1 (L.addEmitted (settingsAsCoded α o ord kvs).2)
+      (H.addOut (settingsAsCoded α o ord kvs).2) ∧
+    (process d o ord (.settings kvs)).2.2.fwdDirect = [.settings kvs] ∧
+    ((kvs.map (·.1)).Nodup → settingsAsCoded α o ord kvs = settingsEachValue α o ord kvs) := by
+  have hl := c09_settings_last_wins o ord ord 0 0 kvs
+  refine ⟨⟨hl.2.2.2.1.1.symm, hl.2.2.2.1.2.1.symm, hl.2.2.2.1.2.2.symm⟩, h.applySettings ord kvs, rfl, ?_⟩
+  intro hn
+  unfold settingsAsCoded settingsEachValue applySettings
+  rw [inForce_of_nodup kvs hn]
+
+/-- the witness frame under the plain dedup: nothing is released, the 50 octets wait (window 0)
+    and a WINDOW_UPDATE of 50 releases them; the code does the same -/
 example :
     let evs : List (Ev Unit) :=
       [⟨.server, fun _ => [], .settings [(4, 0)]⟩,
        ⟨.client, fun _ => [], .data 1 (List.replicate 50 ()) none true⟩]
     let o := (after evs).1.cs
     let x := applySettingsLastOnly o (fun _ => []) [(4, 50), (3, 100), (4, 0)]
+    let y := applySettings o (fun _ => []) [(4, 50), (3, 100), (4, 0)]
     x.2 = [] ∧ x.1.initWin = 0 ∧ (x.1.streams.get 1).map (·.win) = some 0 ∧
-    ((x.1.windowUpdate [] 1 50).2.flatMap QFrame.send).map Frame.payloadLen = [50] := by
+    ((x.1.windowUpdate [] 1 50).2.flatMap QFrame.send).map Frame.payloadLen = [50] ∧
+    y.2 = [] ∧ ((y.1.windowUpdate [] 1 50).2.flatMap QFrame.send).map Frame.payloadLen = [50] := by
+  decide
+
+/-- a chain that ENDS higher does release, once, under the value in force: `{0, 50}` frees the 50
+    octets and leaves the window at 0 -/
+example :
+    let evs : List (Ev Unit) :=
+      [⟨.server, fun _ => [], .settings [(4, 0)]⟩,
+       ⟨.client, fun _ => [], .data 1 (List.replicate 50 ()) none true⟩]
+    let y := applySettings (after evs).1.cs (fun _ => []) [(4, 0), (3, 100), (4, 50)]
+    (y.2.flatMap QFrame.send).map Frame.payloadLen = [50] ∧ (y.1.streams.get 1).map (·.win) = some 0 := by
   decide
 
 /-- witness for reading the frame through `SettingsFrame.Value` (first occurrence, fixed order;
     numbers scaled down by 100): `{INITIAL_WINDOW_SIZE=655, MAX_CONCURRENT_STREAMS=100,
-    INITIAL_WINDOW_SIZE=30}` — defaults followed by an override.  In order the window in force is 30
-    and a 50-octet DATA frame waits; first-wins leaves 655 in force and the 50 octets go out on a
-    stream for which the endpoint granted 30. -/
+    INITIAL_WINDOW_SIZE=30}` — defaults followed by an override.  With the value in force the window
+    is 30 and a 50-octet DATA frame waits; first-wins leaves 655 in force and the 50 octets go out on
+    a stream for which the endpoint granted 30. -/
 theorem c09_settings_first_wins_witness :
     let kvs : List (Nat × Nat) := [(4, 655), (3, 100), (4, 30)]
-    let inOrder : Dir Unit := (applySettings ({} : Dir Unit) (fun _ => []) 0 kvs).1
+    let inOrder : Dir Unit := (applySettings ({} : Dir Unit) (fun _ => []) kvs).1
     let first : Dir Unit := (applySettingsFirst ({} : Dir Unit) (fun _ => []) kvs).1
     inOrder.initWin = 30 ∧ lastOfInt settingInitialWindowSize 65535 kvs = 30 ∧ first.initWin = 655 ∧
     ((inOrder.data 1 (List.replicate 50 ()) false).2.flatMap QFrame.send).map Frame.payloadLen = [] ∧
@@ -465,17 +510,20 @@ example :
     (after evs).1.cs.connWin + ((after (evs ++ sfx)).2.Lcs.incConn - (after evs).2.Lcs.incConn) = 65542 := by
   decide
 
--- three identifiers repeated, two unknown ones in between: 4 → 70, 5 → 16384, 1 → 0
+-- three identifiers repeated, two unknown ones in between: 4 → 70, 5 → 16384, 1 → 0; the code acts
+-- on the last INITIAL_WINDOW_SIZE and MAX_FRAME_SIZE and on both HEADER_TABLE_SIZE values
 example :
     let kvs : List (Nat × Nat) := [(4, 65535), (5, 32768), (153, 7), (1, 4096), (4, 100), (5, 16384), (1, 0), (3, 9), (4, 70)]
     lastOcc kvs = [(153, 7), (5, 16384), (1, 0), (3, 9), (4, 70)] ∧
-    ((applySettings ({} : Dir Unit) (fun _ => []) 0 kvs).1.initWin,
-     (applySettings ({} : Dir Unit) (fun _ => []) 0 kvs).1.maxFrame,
-     (applySettings ({} : Dir Unit) (fun _ => []) 0 kvs).1.tableSize) = (70, 16384, 0) := by
+    inForce kvs = [(153, 7), (1, 4096), (5, 16384), (1, 0), (3, 9), (4, 70)] ∧
+    ((applySettings ({} : Dir Unit) (fun _ => []) kvs).1.initWin,
+     (applySettings ({} : Dir Unit) (fun _ => []) kvs).1.maxFrame,
+     (applySettings ({} : Dir Unit) (fun _ => []) kvs).1.tableSize) = (70, 16384, 0) := by
   decide
 
-example : simpleOp (Op.settings (α := Unit) [(5, 20000), (4, 70), (3, 9)]) := by
-  show initCount _ ≤ 1
+-- `c09_stream_ledger` speaks of such steps too: a SETTINGS frame naming INITIAL_WINDOW_SIZE three times
+example : initCount [(4, 65535), (5, 20000), (4, 70), (3, 9), (4, 100)] = 3 ∧
+    initCount (inForce [(4, 65535), (5, 20000), (4, 70), (3, 9), (4, 100)]) = 1 := by
   decide
 
 end C09
